@@ -12,6 +12,13 @@ use crate::syntax::esc;
 
 pub const VERIF_ROOT: &str = "/verif";
 
+/// Where evidence and replay files go. Always /verif for the registered commands; the mutation
+/// runner (tools/mutant_check.sh) redirects it so that runs against a scratch worktree never
+/// overwrite the evidence of the real tree.
+pub fn out_root() -> String {
+    std::env::var("VERIF_OUT_ROOT").unwrap_or_else(|_| VERIF_ROOT.to_string())
+}
+
 #[derive(Clone, Debug, Serialize, Deserialize)]
 pub struct Failure {
     pub property: String,
@@ -117,7 +124,7 @@ fn short_hash(s: &str) -> String {
 
 pub fn replay_path(property: &str, f: &Failure) -> PathBuf {
     let key = format!("{}|{}|{}|{:?}", f.signature, f.input, f.clause, f.cfg);
-    Path::new(VERIF_ROOT).join("replays").join(property).join(format!("{}.json", short_hash(&key)))
+    Path::new(&out_root()).join("replays").join(property).join(format!("{}.json", short_hash(&key)))
 }
 
 pub fn write_replay(property: &str, f: &Failure) -> PathBuf {
@@ -264,7 +271,7 @@ pub fn finish(out: Outcome, example_still_fails: &dyn Fn(&KnownFinding) -> bool)
         "wall_s": out.wall_s,
         "violations": violations.len(),
     });
-    let evdir = Path::new(VERIF_ROOT).join("evidence");
+    let evdir = Path::new(&out_root()).join("evidence");
     let _ = std::fs::create_dir_all(&evdir);
     let evp = evdir.join(format!("{}.json", out.property));
     if let Err(e) = std::fs::write(&evp, serde_json::to_string_pretty(&ev).unwrap()) {
